@@ -86,6 +86,11 @@ func runProbes() {
 				if err = json.Unmarshal(p.Case, &c); err == nil {
 					err = checkBytes(c, o)
 				}
+			case "txjson":
+				var c TxJSONCase
+				if err = json.Unmarshal(p.Case, &c); err == nil {
+					err = checkTxJSONCase(c, o)
+				}
 			case "varint":
 				var c VarCase
 				if err = json.Unmarshal(p.Case, &c); err == nil {
